@@ -71,6 +71,7 @@ func runC02(c *Ctx) {
 	ruleLSNMonotone(c, "C02.32")
 	ruleLogWritesReachFile(c, "C02.33")
 	ruleRecordOwnsPayload(c, "C02.34")
+	ruleErrorsWrappedWithW(c, "C02.35")
 	ruleErrorsNotDropped(c, "C02.16", "storage.(*BTree).insert", "storage.(*RelationService).Insert", "storage.(*RelationService).MarkDeleted", "storage.(*RelationService).FlushWALBatch")
 }
 
